@@ -113,7 +113,7 @@ CONTRACTS = {
         },
     },
     "SQLDataHolder.commit_batched_data_to_database": {
-        "modifies": ALLM,
+        "modifies": ALLM, "atomic_raises": True,
         "requires": {"wf": WF("self"), "pending": BI("self")},
         # fails exactly when the batch contains a duplicate or an already stored id; nothing is stored then
         "raises": {"IntegrityError": "not distinct_ids(self.node_models_to_save) or any(n.event_id in self.g_nodes for n in self.node_models_to_save)"},
